@@ -134,7 +134,9 @@ func run(c *hl.Ctx) error {
 	// the DESIGN §7 witnesses as programs
 	for _, src := range []string{"'a`b' -> c\n", "'a${x}b' -> c\n", "\"a\\nb\" -> c\n\"ax\\nb\" -> c\n",
 		// open finding C17-seq-dotted-actor-in-group
-		"shape: sequence_diagram\n\"a.z\"\nb\ng: {\n  b -> \"a.z\"\n  h: {\n    b -> b\n  }\n}\n"} {
+		"shape: sequence_diagram\n\"a.z\"\nb\ng: {\n  b -> \"a.z\"\n  h: {\n    b -> b\n  }\n}\n",
+		// open finding C17-seq-grid-actor-span-in-group
+		"shape: sequence_diagram\na\nb: {\n  grid-rows: 1\n  x\n  y\n}\ng: {\n  b.s1 -> a\n}\n"} {
 		for _, e := range []string{"dagre", "elk"} {
 			jobs = append(jobs, lay.Job{Src: src, Engine: e, Render: true, Tag: "witness"})
 		}
